@@ -10,6 +10,7 @@ the representation invariant `BInv` (proved to hold initially and to be preserve
 by every `step`), all connection identifiers, packets and histories.
 -/
 import Mqtt.Proofs.BrokerQosFifo
+import Mqtt.Proofs.BrokerQosHistory
 import Mqtt.Properties.C13
 
 namespace Mqtt.Properties.C02
@@ -300,5 +301,121 @@ example :
       [.ok true, .ok true, .ok true, .ok true, .released [], .ok true,
        .released [⟨3, 6, 5, [116, 1], [0x62, 2, 0, 5], 0⟩, ⟨3, 6, 6, [116, 3], [0x62, 2, 0, 6], 0⟩]] := by
   decide +kernel
+
+/-! ## (e) exactly once over histories
+
+Indexed by the session object `r` whose inbound queue holds the open
+exchanges: `bound b c r` says that connection `c` is live and bound to `r`.
+(A connection is bound to one session object for its whole life; a persistent
+session object outlives its connections, and with overlapping client
+identifiers — E4 — two live connections can share one.)
+
+* `stepOpened b r ev` — the exchange `ev` opens on `r`: a QoS 2 PUBLISH on a
+  connection bound to `r` whose identifier has no open exchange;
+* `stepHanded b r ev` — the contents `ev` takes off the queue of `r` and hands
+  on: the prefix released by a PUBREL on a connection bound to `r`
+  (`C02_handed_is_output`: these are exactly the hand-overs among the outputs of
+  that step, and by `C02_qos2_publish` a PUBLISH step hands on nothing);
+* `opened`, `handed` — accumulated along a history. -/
+
+/-- **Isolation.**  Only a packet on a live connection bound to session object
+`r` can change the inbound QoS 2 queue of `r`: a QoS 2 PUBLISH (`q2Wait`) or a
+PUBREL (mark, drop the released prefix).  Every other event — any packet on a
+connection bound to another session, first packets (a resumed session keeps
+its queue, a new session object gets a fresh reference), connection ends,
+wills, the in-process API — leaves it exactly as it is. -/
+theorem C02_queue_frame (b : B) (hI : BInv b) (ev : Ev) (r : Nat) :
+    pub2inOf (step b ev).1 r =
+      match ev with
+      | .packet c p => if bound b c r then newQ p (pub2inOf b r) else pub2inOf b r
+      | _ => pub2inOf b r :=
+  step_pub2in hI ev r
+
+/-- **(e) Exactly once, in order, first content.**  Over any history of events
+on any connections, for every session object: the contents handed over by
+PUBREL steps so far, followed by the contents of the exchanges still open, are
+the contents already queued at the start followed by the first PUBLISH of every
+exchange opened since, in opening order.  Hence every exchange is handed over
+at most once, none is lost or invented, the hand-over happens in a PUBREL step
+(never at PUBLISH time), in opening order, and what is handed over is the
+content of the exchange's first PUBLISH — whatever else arrives in between on
+this or any other connection. -/
+theorem C02_exactly_once (b : B) (hI : BInv b) (evs : List Ev) (r : Nat) :
+    handed b r evs ++ (pub2inOf (run b evs).1 r).map (·.msg) =
+      (pub2inOf b r).map (·.msg) ++ opened b r evs :=
+  run_conservation hI evs r
+
+/-- … from the initial broker: handed over ++ still open = opened. -/
+theorem C02_exactly_once_init (evs : List Ev) (r : Nat) :
+    handed {} r evs ++ (pub2inOf (run {} evs).1 r).map (·.msg) = opened {} r evs := by
+  have := run_conservation inv_init evs r
+  simpa [pub2inOf, B.getSess] using this
+
+/-- The contents `stepHanded` counts for a PUBREL step are exactly what that
+step hands on: its outputs are `releaseAll` of the released entries (for each
+its `onPublish` outputs, `C02_releaseAll`) followed by the PUBCOMP. -/
+theorem C02_handed_is_output (b : B) (hI : BInv b) (c r id : Nat) (hb : bound b c r = true) :
+    ∃ s, sessOf b c = some s ∧ s.ref = r ∧ pub2inOf b r = s.pub2in ∧
+      let rel := (q2Acked (q2Ack s.pub2in id)).2
+      let b1 := b.setSess { s with pub2in := (q2Acked (q2Ack s.pub2in id)).1 }
+      (step b (.packet c (.pubrel id))).2 = (releaseAll b1 rel).2 ++ [.send c (.pubcomp id)] ∧
+      rel.map (·.msg) = stepHanded b r (.packet c (.pubrel id)) := by
+  obtain ⟨_, cn, s, hc, ha, hs, _, hr, hq⟩ := bound_sess hI hb
+  refine ⟨s, sessOf_eq hc hs, hr, hq, ?_, ?_⟩
+  · simp only [step]; rw [packet_pubrel hc ha hs id]
+  · simp [stepHanded, hb, hq]
+
+/-- **(e) Eager release.**  (1) In every reachable state the oldest open exchange
+of every session has not had its PUBREL (so nothing that could be handed over
+is ever left waiting).  (2) If every older open exchange is PUBREL-marked, the
+PUBREL of exchange `e` hands `e` over in that very step.  (3) If after a PUBREL
+an exchange with its identifier is still open, it is marked and the oldest open
+exchange is another one that is still waiting for its PUBREL (FIFO head
+blocking — the documented deferral). -/
+theorem C02_release_eager (b : B) (hI : BInv b) (r : Nat) :
+    (∀ evs e, (pub2inOf (run b evs).1 r).head? = some e → e.state = 0) ∧
+    (∀ c pre e post, bound b c r = true → pub2inOf b r = pre ++ e :: post →
+      (∀ x ∈ pre, x.state = tPUBREL) →
+      stepHanded b r (.packet c (.pubrel e.id)) =
+        pre.map (·.msg) ++ e.msg ::
+          ((q2Ack post e.id).takeWhile fun x => x.state == tPUBREL).map (·.msg)) ∧
+    (∀ c id, bound b c r = true →
+      ∀ x ∈ pub2inOf (step b (.packet c (.pubrel id))).1 r, x.id = id →
+        x.state = tPUBREL ∧
+        ∃ h, (pub2inOf (step b (.packet c (.pubrel id))).1 r).head? = some h ∧ h.state = 0 ∧ h.id ≠ id) := by
+  refine ⟨?_, ?_, ?_⟩
+  · intro evs e he
+    have hq := (run_inv hI evs).queues r
+    rcases hq.states e (List.mem_of_mem_head? he) with h | h
+    · exact h
+    · exact absurd h (hq.head e he)
+  · intro c pre e post hb hq hpre
+    simp only [stepHanded, hb, ↓reduceIte, hq]
+    rw [q2Acked_release pre post e e.id hpre rfl]
+    simp
+  · intro c id hb
+    rw [step_pub2in hI _ r]
+    simp only [hb, ↓reduceIte, newQ]
+    exact pubrel_blocked (hI.queues r) id
+
+/-- Connection 2 (session object 2) opens 5 and 6 while connection 1 opens its
+own exchange 5 (session object 1), a DUP of 5 with another payload arrives, the
+in-process API publishes, connection 1 subscribes more; PUBREL 6 then PUBREL 5
+on connection 2.  Session 2: opened = handed = [first 5, 6]; session 1:
+exchange 5 still open. -/
+example :
+    let p5 : Pub := { qos := 2, topic := [116], pktid := 5, payload := [1] }
+    let p6 : Pub := { qos := 2, topic := [116], pktid := 6, payload := [3] }
+    let o5 : Pub := { qos := 2, topic := [117], pktid := 5, payload := [9] }
+    let evs : List Ev :=
+      [.packet 2 (.publish p5), .packet 1 (.publish o5),
+       .packet 2 (.publish { p5 with dup := true, payload := [2] }),
+       .srvPub { qos := 0, topic := [116], payload := [7] },
+       .packet 2 (.publish p6), .packet 1 (.subscribe 2 [([118], 1)]),
+       .packet 2 (.pubrel 6), .packet 1 (.pingreq), .packet 2 (.pubrel 5)]
+    bound demo 2 2 = true ∧ bound demo 1 1 = true ∧
+    opened demo 2 evs = [p5, p6] ∧ handed demo 2 evs = [p5, p6] ∧ pub2inOf (run demo evs).1 2 = [] ∧
+    opened demo 1 evs = [o5] ∧ handed demo 1 evs = [] ∧ pub2inOf (run demo evs).1 1 = [⟨5, 0, o5⟩] := by
+  decide
 
 end Mqtt.Properties.C02
